@@ -150,7 +150,8 @@ public:
     {
         _capacity = size;
       byte* newBuffer = (byte*)new char[size + 1];
-      Memory::copy(newBuffer, bufferStart, bufferEnd - bufferStart);
+      usize oldSize = bufferEnd - bufferStart;
+      Memory::copy(newBuffer, bufferStart, oldSize < size ? oldSize : size);
       delete[] (char*)buffer;
       bufferStart = buffer = newBuffer;
       bufferEnd = newBuffer + size;
@@ -200,9 +201,11 @@ public:
   {
     if(capacity <= _capacity)
       return;
+    usize size = bufferEnd - bufferStart;
+    if(capacity < size)
+      capacity = size;
     _capacity = capacity;
     byte* newBuffer = (byte*)new char [capacity + 1];
-    usize size = bufferEnd - bufferStart;
     Memory::copy(newBuffer, bufferStart, size);
     delete[] (char*)buffer;
     bufferStart = buffer = newBuffer;
